@@ -527,6 +527,7 @@ func cmdCheck(args []string) {
 	assumptions = append(assumptions, links...)
 	assumptions = append(assumptions, notClaimed...)
 	absSet := map[string]bool{}
+	inferredSet := map[string]bool{}
 	provedElsewhere := propsVerifying(verifDir)
 	for _, g := range gens {
 		for _, a := range g.assumptions {
@@ -549,8 +550,12 @@ func cmdCheck(args []string) {
 		for _, a := range g.abstracted {
 			absSet[g.fnName+": "+a] = true
 		}
+		for _, a := range g.inferred {
+			inferredSet[a] = true
+		}
 	}
 	assumptions = append(assumptions,
+		"loop facts added by the generator without a proof obligation (inductive by construction: counters in lock step, niter, and prefix facts from branch conditions over memory the loop does not write; listed under coverage.inferred_loop_facts)",
 		"machine integers are treated as mathematical integers (no overflow) except where a conversion narrows to an unsigned type",
 		"functions without a body in the loaded packages write at most shallowly through pointer/slice arguments; effect-free list in spec/effectfree.txt",
 		"no reflect/unsafe writes to unexported fields from outside their package",
@@ -582,6 +587,7 @@ func cmdCheck(args []string) {
 		"solver_time_s": round3(solverTime),
 		"samples":      samples,
 		"abstracted":   sortedKeys(absSet),
+		"inferred_loop_facts": sortedKeys(inferredSet),
 		"known_findings_hit": knownHit,
 		"explanation":  ps.Explanation,
 		"residual_not_decided": ps.Residual,
